@@ -191,8 +191,7 @@ def run(ctx: RunCtx) -> None:
                 ctx.log.add("shutdown-done")
 
             def root() -> None:
-                if with_reaper:
-                    sched.spawn(sticky_mod._ReaperThread.run, reaper, name="reaper", daemon=True)
+                rt_ = sched.spawn(sticky_mod._ReaperThread.run, reaper, name="reaper", daemon=True) if with_reaper else None
                 ts = [sched.spawn(requester, k, name=f"req{k}") for k in range(nthreads)]
                 if with_delete:
                     ts.append(sched.spawn(deleter, name="delete"))
@@ -203,7 +202,11 @@ def run(ctx: RunCtx) -> None:
                         sched.block(("join", t.sid), 1.0, "join")
                 # the reaper is a daemon: let it finish whatever sweep it is in the middle of (an entry it has already taken
                 # out of the registry is closed a few lines later) before the end-of-run oracles look at the registry
-                sched.block(("quiesce",), 0.0, "quiesce")
+                for _ in range(64):
+                    sched.block(("quiesce",), 0.0, "quiesce")
+                    # a pre-emption inside the sweep can hand control back here early: wait until the reaper really waits
+                    if rt_ is None or rt_.state != "runnable":
+                        break
 
             box["registry"] = registry
             sched.run(root)
